@@ -2,7 +2,10 @@ package main
 
 import (
 	"encoding/json"
+	"errors"
 	"fmt"
+	"net/url"
+	"os"
 	"strings"
 	"sync"
 	"time"
@@ -24,7 +27,21 @@ type world struct {
 	unwound   bool // the call's goroutine is unwinding (panic / Goexit) or has returned
 	closed    bool // the case is over; later sink calls (cleanup) are ignored
 	cleanup   []func()
+	errOut    *recSink                 // the logger's ErrorOutput
+	cfgMust   func(zapcore.Level) bool // for sinks opened by Config.Build through the c06rec scheme
+	file      *fileObs                 // a real file behind os.Stderr / os.Stdout (constructor kinds)
 }
+
+// fileObs observes a logger that writes to a real *os.File (the constructors
+// NewProduction / NewDevelopment / NewExample write to stderr / stdout, which
+// are pointed at a scratch file while the logger is built).
+type fileObs struct {
+	f    *os.File
+	off  int64
+	must func(zapcore.Level) bool
+}
+
+var errSinkFailure = errors.New("c06 sink failure")
 
 // terminated reports whether the terminal action has begun: the exit stub was
 // entered, a custom hook was entered, or the goroutine left the call.
@@ -52,6 +69,10 @@ type recSink struct {
 	// after the terminal action began
 	lateWrites int
 	lateSyncs  int
+	// fault injection
+	failFrom int  // Write number from which Write fails (0: never)
+	syncFail bool // Sync is recorded but returns an error
+	attempts int
 }
 
 func (s *recSink) Write(p []byte) (int, error) {
@@ -63,6 +84,10 @@ func (s *recSink) Write(p []byte) (int, error) {
 	if s.w.terminated() {
 		s.lateWrites++
 		return len(p), nil
+	}
+	s.attempts++
+	if s.failFrom > 0 && s.attempts >= s.failFrom {
+		return 0, errSinkFailure
 	}
 	s.data = append(s.data, p...)
 	s.writes++
@@ -82,6 +107,9 @@ func (s *recSink) Sync() error {
 	}
 	s.syncs++
 	s.synced = true
+	if s.syncFail {
+		return errSinkFailure
+	}
 	return nil
 }
 
@@ -134,6 +162,7 @@ const (
 	condEnabled  = "enabled"
 	condDisabled = "disabled"
 	condSampled  = "sampled-out"
+	condFault    = "enabled-with-failing-sink"
 )
 
 func always(zapcore.Level) bool { return true }
@@ -148,6 +177,20 @@ type coreKind struct {
 	cond func(lvl zapcore.Level) string
 	// build makes the core (and extra logger options) for one case.
 	build func(w *world, lvl zapcore.Level, msg string) (zapcore.Core, []zap.Option)
+
+	group string // "" (healthy product) | fault | config | constructor
+	// pre is the number of Info entries logged before the call under test.
+	pre int
+	// wantReport: a sink Write fails on the entry under test and the failure
+	// must show up on the logger's ErrorOutput.
+	wantReport bool
+	// mk, when set, builds the whole logger (Config.Build and the preset
+	// constructors); dev is the case's development flag.
+	mk func(w *world, dev bool, opts []zap.Option) *zap.Logger
+	// forceDev: the constructor itself puts the logger in development mode.
+	forceDev bool
+	// console: the logger uses the console encoder.
+	console bool
 }
 
 func condConst(c string) func(zapcore.Level) string {
@@ -175,20 +218,20 @@ func coreKinds() []coreKind {
 		}
 	}
 	return []coreKind{
-		{"nop", condConst(condDisabled), func(w *world, _ zapcore.Level, _ string) (zapcore.Core, []zap.Option) {
+		{name: "nop", cond: condConst(condDisabled), build: func(w *world, _ zapcore.Level, _ string) (zapcore.Core, []zap.Option) {
 			return zapcore.NewNopCore(), nil
 		}},
-		{"io-lock", condConst(condEnabled), func(w *world, _ zapcore.Level, _ string) (zapcore.Core, []zap.Option) {
+		{name: "io-lock", cond: condConst(condEnabled), build: func(w *world, _ zapcore.Level, _ string) (zapcore.Core, []zap.Option) {
 			return zapcore.NewCore(newEncoder(), zapcore.Lock(w.newSink("a", always)), zapcore.DebugLevel), nil
 		}},
-		{"io-buffered-default-size", condConst(condEnabled), buffered(0)},
-		{"io-buffered-size4096", condConst(condEnabled), buffered(4096)},
-		{"io-buffered-size16", condConst(condEnabled), buffered(16)},
-		{"sampler-drops-all(first=0,thereafter=0)", condConst(condSampled), func(w *world, _ zapcore.Level, _ string) (zapcore.Core, []zap.Option) {
+		{name: "io-buffered-default-size", cond: condConst(condEnabled), build: buffered(0)},
+		{name: "io-buffered-size4096", cond: condConst(condEnabled), build: buffered(4096)},
+		{name: "io-buffered-size16", cond: condConst(condEnabled), build: buffered(16)},
+		{name: "sampler-drops-all(first=0,thereafter=0)", cond: condConst(condSampled), build: func(w *world, _ zapcore.Level, _ string) (zapcore.Core, []zap.Option) {
 			inner := zapcore.NewCore(newEncoder(), zapcore.Lock(w.newSink("a", never)), zapcore.DebugLevel)
 			return zapcore.NewSamplerWithOptions(inner, time.Hour, 0, 0), nil
 		}},
-		{"sampler-warmed(first=1,thereafter=1000)", condConst(condSampled), func(w *world, lvl zapcore.Level, msg string) (zapcore.Core, []zap.Option) {
+		{name: "sampler-warmed(first=1,thereafter=1000)", cond: condConst(condSampled), build: func(w *world, lvl zapcore.Level, msg string) (zapcore.Core, []zap.Option) {
 			inner := zapcore.NewCore(newEncoder(), zapcore.Lock(w.newSink("a", never)), zapcore.DebugLevel)
 			s := zapcore.NewSamplerWithOptions(inner, time.Hour, 1, 1000)
 			// warm-up: the first entry with this level and message is let
@@ -196,44 +239,44 @@ func coreKinds() []coreKind {
 			_ = s.Check(zapcore.Entry{Level: lvl, Message: msg, Time: t0}, nil)
 			return s, nil
 		}},
-		{"tee(io-lock,io)", condConst(condEnabled), func(w *world, _ zapcore.Level, _ string) (zapcore.Core, []zap.Option) {
+		{name: "tee(io-lock,io)", cond: condConst(condEnabled), build: func(w *world, _ zapcore.Level, _ string) (zapcore.Core, []zap.Option) {
 			a := zapcore.NewCore(newEncoder(), zapcore.Lock(w.newSink("a", always)), zapcore.DebugLevel)
 			b := zapcore.NewCore(newEncoder(), zapcore.AddSync(w.newSink("b", always)), zapcore.DebugLevel)
 			return zapcore.NewTee(a, b), nil
 		}},
-		{"tee(io,io-below-dpanic-only)", condConst(condEnabled), func(w *world, _ zapcore.Level, _ string) (zapcore.Core, []zap.Option) {
+		{name: "tee(io,io-below-dpanic-only)", cond: condConst(condEnabled), build: func(w *world, _ zapcore.Level, _ string) (zapcore.Core, []zap.Option) {
 			a := zapcore.NewCore(newEncoder(), zapcore.Lock(w.newSink("a", always)), zapcore.DebugLevel)
 			low := zap.LevelEnablerFunc(func(l zapcore.Level) bool { return l < zapcore.DPanicLevel })
 			b := zapcore.NewCore(newEncoder(), zapcore.Lock(w.newSink("b", never)), low)
 			return zapcore.NewTee(a, b), nil
 		}},
-		{"tee(nop,io-buffered)", condConst(condEnabled), func(w *world, lvl zapcore.Level, msg string) (zapcore.Core, []zap.Option) {
+		{name: "tee(nop,io-buffered)", cond: condConst(condEnabled), build: func(w *world, lvl zapcore.Level, msg string) (zapcore.Core, []zap.Option) {
 			c, _ := buffered(4096)(w, lvl, msg)
 			return zapcore.NewTee(zapcore.NewNopCore(), c), nil
 		}},
-		{"tee(sampler-drops-all,io-buffered)", condConst(condEnabled), func(w *world, lvl zapcore.Level, msg string) (zapcore.Core, []zap.Option) {
+		{name: "tee(sampler-drops-all,io-buffered)", cond: condConst(condEnabled), build: func(w *world, lvl zapcore.Level, msg string) (zapcore.Core, []zap.Option) {
 			inner := zapcore.NewCore(newEncoder(), zapcore.Lock(w.newSink("a", never)), zapcore.DebugLevel)
 			c, _ := buffered(4096)(w, lvl, msg)
 			return zapcore.NewTee(zapcore.NewSamplerWithOptions(inner, time.Hour, 0, 0), c), nil
 		}},
-		{"sampler-passes(first=100)-over-io-buffered", condConst(condEnabled), func(w *world, lvl zapcore.Level, msg string) (zapcore.Core, []zap.Option) {
+		{name: "sampler-passes(first=100)-over-io-buffered", cond: condConst(condEnabled), build: func(w *world, lvl zapcore.Level, msg string) (zapcore.Core, []zap.Option) {
 			c, _ := buffered(4096)(w, lvl, msg)
 			return zapcore.NewSamplerWithOptions(c, time.Hour, 100, 100), nil
 		}},
-		{"registerhooks(io-lock)", condConst(condEnabled), func(w *world, _ zapcore.Level, _ string) (zapcore.Core, []zap.Option) {
+		{name: "registerhooks(io-lock)", cond: condConst(condEnabled), build: func(w *world, _ zapcore.Level, _ string) (zapcore.Core, []zap.Option) {
 			c := zapcore.NewCore(newEncoder(), zapcore.Lock(w.newSink("a", always)), zapcore.DebugLevel)
 			return zapcore.RegisterHooks(c, func(zapcore.Entry) error { return nil }), nil
 		}},
-		{"io-atomiclevel-above-fatal", condConst(condDisabled), func(w *world, _ zapcore.Level, _ string) (zapcore.Core, []zap.Option) {
+		{name: "io-atomiclevel-above-fatal", cond: condConst(condDisabled), build: func(w *world, _ zapcore.Level, _ string) (zapcore.Core, []zap.Option) {
 			return zapcore.NewCore(newEncoder(), zapcore.Lock(w.newSink("a", never)), zap.NewAtomicLevelAt(aboveFatal)), nil
 		}},
-		{"io-at-fatal", condFrom(zapcore.FatalLevel), func(w *world, _ zapcore.Level, _ string) (zapcore.Core, []zap.Option) {
+		{name: "io-at-fatal", cond: condFrom(zapcore.FatalLevel), build: func(w *world, _ zapcore.Level, _ string) (zapcore.Core, []zap.Option) {
 			return zapcore.NewCore(newEncoder(), zapcore.Lock(w.newSink("a", atLeast(zapcore.FatalLevel))), zapcore.FatalLevel), nil
 		}},
-		{"io-at-panic", condFrom(zapcore.PanicLevel), func(w *world, _ zapcore.Level, _ string) (zapcore.Core, []zap.Option) {
+		{name: "io-at-panic", cond: condFrom(zapcore.PanicLevel), build: func(w *world, _ zapcore.Level, _ string) (zapcore.Core, []zap.Option) {
 			return zapcore.NewCore(newEncoder(), zapcore.Lock(w.newSink("a", atLeast(zapcore.PanicLevel))), zapcore.PanicLevel), nil
 		}},
-		{"increaselevelcore-above-fatal", condConst(condDisabled), func(w *world, _ zapcore.Level, _ string) (zapcore.Core, []zap.Option) {
+		{name: "increaselevelcore-above-fatal", cond: condConst(condDisabled), build: func(w *world, _ zapcore.Level, _ string) (zapcore.Core, []zap.Option) {
 			inner := zapcore.NewCore(newEncoder(), zapcore.Lock(w.newSink("a", never)), zapcore.DebugLevel)
 			c, err := zapcore.NewIncreaseLevelCore(inner, zap.NewAtomicLevelAt(aboveFatal))
 			if err != nil {
@@ -241,11 +284,11 @@ func coreKinds() []coreKind {
 			}
 			return c, nil
 		}},
-		{"option-IncreaseLevel(fatal)", condFrom(zapcore.FatalLevel), func(w *world, _ zapcore.Level, _ string) (zapcore.Core, []zap.Option) {
+		{name: "option-IncreaseLevel(fatal)", cond: condFrom(zapcore.FatalLevel), build: func(w *world, _ zapcore.Level, _ string) (zapcore.Core, []zap.Option) {
 			inner := zapcore.NewCore(newEncoder(), zapcore.Lock(w.newSink("a", atLeast(zapcore.FatalLevel))), zapcore.DebugLevel)
 			return inner, []zap.Option{zap.IncreaseLevel(zapcore.FatalLevel)}
 		}},
-		{"levelenablerfunc-false", condConst(condDisabled), func(w *world, _ zapcore.Level, _ string) (zapcore.Core, []zap.Option) {
+		{name: "levelenablerfunc-false", cond: condConst(condDisabled), build: func(w *world, _ zapcore.Level, _ string) (zapcore.Core, []zap.Option) {
 			off := zap.LevelEnablerFunc(func(zapcore.Level) bool { return false })
 			return zapcore.NewCore(newEncoder(), zapcore.Lock(w.newSink("a", never)), off), nil
 		}},
@@ -371,19 +414,33 @@ func expectedAction(lvl zapcore.Level, dev bool, h hookSetting) action {
 // ---------------------------------------------------------------------------
 // line oracle
 
-// checkLine verifies that data is exactly one complete JSON line carrying the
-// message, the level and the expected fields.
-func checkLine(data []byte, lvl zapcore.Level, msg string, fields map[string]any) string {
+// checkLine verifies that data is pre earlier complete lines followed by
+// exactly one complete JSON line carrying the message, the level and the
+// expected fields. For the console encoder (whose stack traces span several
+// lines) it checks that the output is newline-terminated and that its first
+// line carries the capitalised level and the message.
+func checkLine(data []byte, lvl zapcore.Level, msg string, fields map[string]any, pre int, console bool) string {
 	if len(data) == 0 {
 		return "no bytes"
 	}
 	if data[len(data)-1] != '\n' {
 		return fmt.Sprintf("does not end with a newline: %q", data)
 	}
-	body := strings.TrimSuffix(string(data), "\n")
-	if strings.Contains(body, "\n") {
-		return fmt.Sprintf("more than one line: %q", data)
+	lines := strings.Split(strings.TrimSuffix(string(data), "\n"), "\n")
+	if console {
+		if len(lines) < pre+1 {
+			return fmt.Sprintf("%d lines, want %d earlier ones and the final one: %q", len(lines), pre, data)
+		}
+		first := lines[pre]
+		if !strings.Contains(first, "\t"+lvl.CapitalString()+"\t") || !strings.Contains(first, "\t"+msg) {
+			return fmt.Sprintf("console line %q does not carry level %s and message %q", first, lvl.CapitalString(), msg)
+		}
+		return ""
 	}
+	if len(lines) != pre+1 {
+		return fmt.Sprintf("%d lines, want %d earlier ones and the final one: %q", len(lines), pre, data)
+	}
+	body := lines[pre]
 	var obj map[string]any
 	if err := json.Unmarshal([]byte(body), &obj); err != nil {
 		return fmt.Sprintf("not valid JSON (%v): %q", err, data)
@@ -426,4 +483,195 @@ func derivations(thorough bool) []derivation {
 		)
 	}
 	return ds
+}
+
+// ---------------------------------------------------------------------------
+// cores with failing sinks: the terminal action must run all the same, every
+// healthy accepting sink holds the line and was synced, and (where a Write
+// itself fails) the failure is reported on the logger's ErrorOutput
+
+func faultKinds() []coreKind {
+	fc := condConst(condFault)
+	io := func(s *recSink) zapcore.Core {
+		return zapcore.NewCore(newEncoder(), zapcore.Lock(s), zapcore.DebugLevel)
+	}
+	failing := func(w *world, name string, from int) *recSink {
+		s := w.newSink(name, never) // nothing is demanded of the failing sink's content
+		s.failFrom = from
+		return s
+	}
+	bufferedOver := func(size, from int) func(w *world, lvl zapcore.Level, msg string) (zapcore.Core, []zap.Option) {
+		return func(w *world, _ zapcore.Level, _ string) (zapcore.Core, []zap.Option) {
+			bws := &zapcore.BufferedWriteSyncer{WS: failing(w, "failing-underlying", from), Size: size, FlushInterval: time.Hour}
+			w.cleanup = append(w.cleanup, func() { _ = bws.Stop() })
+			return zapcore.NewCore(newEncoder(), bws, zapcore.DebugLevel), nil
+		}
+	}
+	ks := []coreKind{
+		{name: "io-write-fails", cond: fc, wantReport: true, build: func(w *world, _ zapcore.Level, _ string) (zapcore.Core, []zap.Option) {
+			return io(failing(w, "failing", 1)), nil
+		}},
+		{name: "io-fails-from-3rd-write", cond: fc, pre: 2, wantReport: true, build: func(w *world, _ zapcore.Level, _ string) (zapcore.Core, []zap.Option) {
+			return io(failing(w, "failing", 3)), nil
+		}},
+		{name: "tee(io-healthy,io-write-fails)", cond: fc, wantReport: true, build: func(w *world, _ zapcore.Level, _ string) (zapcore.Core, []zap.Option) {
+			return zapcore.NewTee(io(w.newSink("healthy", always)), io(failing(w, "failing", 1))), nil
+		}},
+		{name: "tee(io-write-fails,io-healthy)", cond: fc, wantReport: true, build: func(w *world, _ zapcore.Level, _ string) (zapcore.Core, []zap.Option) {
+			return zapcore.NewTee(io(failing(w, "failing", 1)), io(w.newSink("healthy", always))), nil
+		}},
+		{name: "tee(io-healthy,io-fails-from-3rd-write)", cond: fc, pre: 2, wantReport: true, build: func(w *world, _ zapcore.Level, _ string) (zapcore.Core, []zap.Option) {
+			return zapcore.NewTee(io(w.newSink("healthy", always)), io(failing(w, "failing", 3))), nil
+		}},
+		{name: "tee(io-fails-from-3rd-write,io-healthy)", cond: fc, pre: 2, wantReport: true, build: func(w *world, _ zapcore.Level, _ string) (zapcore.Core, []zap.Option) {
+			return zapcore.NewTee(io(failing(w, "failing", 3)), io(w.newSink("healthy", always))), nil
+		}},
+		// a buffered sink may surface the failure only at the flush inside
+		// Sync, whose error the IO core ignores: no report is demanded
+		{name: "io-buffered-size4096-over-failing-sink", cond: fc, build: bufferedOver(4096, 1)},
+		{name: "io-buffered-size16-over-failing-sink", cond: fc, build: bufferedOver(16, 1)},
+		{name: "tee(io-buffered-over-failing-sink,io-healthy)", cond: fc, build: func(w *world, lvl zapcore.Level, msg string) (zapcore.Core, []zap.Option) {
+			c, _ := bufferedOver(4096, 1)(w, lvl, msg)
+			return zapcore.NewTee(c, io(w.newSink("healthy", always))), nil
+		}},
+		{name: "io-sync-fails", cond: fc, build: func(w *world, _ zapcore.Level, _ string) (zapcore.Core, []zap.Option) {
+			s := w.newSink("sync-failing", always) // Write works: the line must be there, and Sync attempted
+			s.syncFail = true
+			return io(s), nil
+		}},
+	}
+	for i := range ks {
+		ks[i].group = "fault"
+	}
+	return ks
+}
+
+// ---------------------------------------------------------------------------
+// loggers built by zap.Config and by the preset constructors
+
+// curWorld is the world of the case whose logger is being built: the c06rec
+// sink scheme hands out that world's recording sinks.
+var curWorld *world
+
+type schemeSink struct{ *recSink }
+
+func (schemeSink) Close() error { return nil }
+
+func registerScheme() error {
+	return zap.RegisterSink("c06rec", func(u *url.URL) (zap.Sink, error) {
+		w := curWorld
+		if w == nil {
+			return nil, errors.New("c06rec: no current case")
+		}
+		if u.Host == "err" {
+			return schemeSink{w.errOut}, nil
+		}
+		return schemeSink{w.newSink("config-output", w.cfgMust)}, nil
+	})
+}
+
+func configKinds() []coreKind {
+	var ks []coreKind
+	for _, base := range []string{"production", "development"} {
+		for _, noStack := range []bool{false, true} {
+			for _, noCaller := range []bool{false, true} {
+				for _, lvlName := range []string{"debug", "above-fatal"} {
+					for _, samp := range []string{"nil", "100/100", "0/0"} {
+						base, noStack, noCaller, lvlName, samp := base, noStack, noCaller, lvlName, samp
+						cond, must := condEnabled, always
+						switch {
+						case lvlName == "above-fatal":
+							cond, must = condDisabled, never
+						case samp == "0/0":
+							cond, must = condSampled, never
+						}
+						ks = append(ks, coreKind{
+							name:    fmt.Sprintf("Config(%s,DisableStacktrace=%v,DisableCaller=%v,Level=%s,Sampling=%s)", base, noStack, noCaller, lvlName, samp),
+							group:   "config",
+							cond:    condConst(cond),
+							console: base == "development",
+							mk: func(w *world, dev bool, opts []zap.Option) *zap.Logger {
+								cfg := zap.NewProductionConfig()
+								if base == "development" {
+									cfg = zap.NewDevelopmentConfig()
+								}
+								cfg.Development = dev
+								cfg.DisableStacktrace = noStack
+								cfg.DisableCaller = noCaller
+								cfg.Level = zap.NewAtomicLevelAt(zapcore.DebugLevel)
+								if lvlName == "above-fatal" {
+									cfg.Level = zap.NewAtomicLevelAt(aboveFatal)
+								}
+								switch samp {
+								case "nil":
+									cfg.Sampling = nil
+								case "100/100":
+									cfg.Sampling = &zap.SamplingConfig{Initial: 100, Thereafter: 100}
+								case "0/0":
+									cfg.Sampling = &zap.SamplingConfig{Initial: 0, Thereafter: 0}
+								}
+								cfg.OutputPaths = []string{"c06rec://out"}
+								cfg.ErrorOutputPaths = []string{"c06rec://err"}
+								w.cfgMust = must
+								curWorld = w
+								defer func() { curWorld = nil }()
+								l, err := cfg.Build(opts...)
+								if err != nil {
+									panic(fmt.Sprintf("harness: Config.Build: %v", err))
+								}
+								return l
+							},
+						})
+					}
+				}
+			}
+		}
+	}
+	return ks
+}
+
+// scratch is the real file that stands in for stderr / stdout while a preset
+// constructor builds its logger.
+var scratch *os.File
+
+func constructorKinds() []coreKind {
+	withStd := func(w *world, f func() (*zap.Logger, error)) *zap.Logger {
+		st, err := scratch.Stat()
+		if err != nil {
+			panic(fmt.Sprintf("harness: stat scratch: %v", err))
+		}
+		w.file = &fileObs{f: scratch, off: st.Size(), must: always}
+		oldOut, oldErr := os.Stdout, os.Stderr
+		os.Stdout, os.Stderr = scratch, scratch
+		defer func() { os.Stdout, os.Stderr = oldOut, oldErr }()
+		l, err := f()
+		if err != nil {
+			panic(fmt.Sprintf("harness: constructor: %v", err))
+		}
+		return l
+	}
+	dev := func(d bool, opts []zap.Option) []zap.Option {
+		if d {
+			return append(opts, zap.Development())
+		}
+		return opts
+	}
+	return []coreKind{
+		{name: "zap.NewProduction", group: "constructor", cond: condConst(condEnabled), mk: func(w *world, d bool, opts []zap.Option) *zap.Logger {
+			return withStd(w, func() (*zap.Logger, error) { return zap.NewProduction(dev(d, opts)...) })
+		}},
+		{name: "zap.NewDevelopment", group: "constructor", cond: condConst(condEnabled), forceDev: true, console: true, mk: func(w *world, d bool, opts []zap.Option) *zap.Logger {
+			return withStd(w, func() (*zap.Logger, error) { return zap.NewDevelopment(dev(d, opts)...) })
+		}},
+		{name: "zap.NewExample", group: "constructor", cond: condConst(condEnabled), mk: func(w *world, d bool, opts []zap.Option) *zap.Logger {
+			return withStd(w, func() (*zap.Logger, error) { return zap.NewExample(dev(d, opts)...), nil })
+		}},
+		{name: "zap.NewProduction+IncreaseLevel(above-fatal)", group: "constructor", cond: condConst(condDisabled), mk: func(w *world, d bool, opts []zap.Option) *zap.Logger {
+			l := withStd(w, func() (*zap.Logger, error) {
+				return zap.NewProduction(append(dev(d, opts), zap.IncreaseLevel(zap.NewAtomicLevelAt(aboveFatal)))...)
+			})
+			w.file.must = never
+			return l
+		}},
+	}
 }
